@@ -1,7 +1,10 @@
 // Scenario steps on maps and saved games (C06, C07, C16).
 #include "ops.hpp"
-static std::vector<unsigned char> map_bytes(const Map& m) { Stream::DynamicMemoryWriter w; m.Write(w); return dyn_bytes(w); }
-static Map map_from(const std::vector<unsigned char>& b) { Stream::MemoryReader r(b.data(), b.size()); return Map::ReadMap(r); }
+static std::vector<unsigned char> map_bytes(const Map& m) { if (via(2) == 1) { const std::string p = via_path("via_out.map"); m.Write(p); return Scen::slurp(p); } Stream::DynamicMemoryWriter w; m.Write(w); return dyn_bytes(w); }
+static Map map_from(const std::vector<unsigned char>& b) { switch (via(3)) { case 1: return Map::ReadMap(Stream::MemoryReader(b.data(), b.size()));
+	case 2: { const std::string p = via_path("via_in.map"); Scen::spit(p, b); return Map::ReadMap(p); } default: { Stream::MemoryReader r(b.data(), b.size()); return Map::ReadMap(r); } } }
+static Map save_from(const std::vector<unsigned char>& b) { switch (via(3)) { case 1: return Map::ReadSavedGame(Stream::MemoryReader(b.data(), b.size()));
+	case 2: { const std::string p = via_path("via_in.op2"); Scen::spit(p, b); return Map::ReadSavedGame(p); } default: { Stream::MemoryReader r(b.data(), b.size()); return Map::ReadSavedGame(r); } } }
 bool ops_map(Ctx& c, const json& s, int idx, bool& handled) {
 	OPS_PROLOGUE
 	if (op == "map_roundtrip") { auto in = Scen::expand(s["input"]), canon = Scen::expand(s["canon"]); Map m; if (throws([&] { m = map_from(in); })) { Proto::mismatch(site, "refused-should-accept", where("")); return false; }
@@ -47,6 +50,7 @@ bool ops_map(Ctx& c, const json& s, int idx, bool& handled) {
 	if (op == "save_equiv") { auto sv = Scen::expand(s["save"]), mp = Scen::expand(s["map"]); Map a, b; Stream::MemoryReader rs(sv.data(), sv.size());
 		if (throws([&] { a = Map::ReadSavedGame(rs); })) { Proto::mismatch(site, "refused-should-accept", where("saved game")); return false; } if (throws([&] { b = map_from(mp); })) { Proto::mismatch(site, "refused-should-accept", where("map")); return false; }
 		if (rs.Position() != sv.size()) { Proto::mismatch(site, "consumed", where(std::to_string(rs.Position()) + " of " + std::to_string(sv.size()))); return false; }
+		{ Map a2; if (throws([&] { a2 = save_from(sv); }) || map_bytes(a2) != map_bytes(a)) { Proto::mismatch(site, "entry-points-differ", where("saved game read through another entry point")); return false; } }
 		// same dimensions, tiles, clip rectangle, sources, mappings, terrain types: compared through the map serialisation with the groups dropped
 		a.tileGroups.clear(); b.tileGroups.clear(); if (map_bytes(a) != map_bytes(b)) { Proto::mismatch(site, "fields-differ", where(Scen::hexdiff(map_bytes(a), map_bytes(b)))); return false; } return true; }
 	// ---- C07: a (truncated / corrupted) map or saved game: an ordinary error, or a self-consistent map ---------------------
